@@ -15,7 +15,6 @@ mod c01;
 mod c01gen;
 mod c01lit;
 mod c02;
-mod c03;
 mod c07;
 mod c09;
 mod c12;
@@ -79,7 +78,6 @@ fn main() {
         "c01" => c01::run(&tier, seed, &out),
         "c01lit" => c01lit::run(&tier, seed, &out),
         "c02" => c02::run(&tier, seed, &out),
-        "c03" => c03::run(&tier, seed, &out),
         "c07" => c07::run(&tier, seed, &out),
         "c09" => c09::run(&tier, seed, &out),
         "c12" => c12::run(&tier, seed, &out),
